@@ -651,7 +651,9 @@ class World(object):
     def _begin(self, kind, conn=None, msg=None):
         st = Step(len(self.steps), self.now, kind, conn, msg)
         st.life = self.life
-        if self.steps and self.steps[-1].after is not None:
+        if not self.dump_every_step:
+            st.before = st.ubefore = None
+        elif self.steps and self.steps[-1].after is not None:
             st.before = self.steps[-1].after
             st.ubefore = self.steps[-1].uafter
         else:
@@ -665,8 +667,9 @@ class World(object):
     def _end(self, st):
         st.in_txn_after = bool(self.any_in_transaction())
         try:
-            st.after = self.dump()
-            st.uafter = self.udump()
+            if self.dump_every_step:
+                st.after = self.dump()
+                st.uafter = self.udump()
         except _sqlite3.OperationalError as e:
             # reader blocked: a writer holds the file (only in lock-injection runs)
             st.after = st.before
